@@ -1,5 +1,5 @@
 """C06 — emu-sv operators: CPU and batched (GPU) paths agree (structural clause)."""
-from ..rules import device
+from ..rules import device, observables
 
 META = {
     "title": "emu-sv operators apply exactly the Hamiltonian and Lindbladian they represent",
@@ -20,3 +20,5 @@ META = {
 def check(ctx):
     device.sibling_arms(ctx)
     device.batched_kernel(ctx)
+    observables.lindbladian_structure(ctx)
+    observables.hamiltonian_structure(ctx)
